@@ -24,7 +24,8 @@ def canon_val(out):
 
 
 def run_validation_case(arg):
-    wkts, stub = arg
+    wkts, stub = arg[0], arg[1]
+    t_ = arg[2] if len(arg) > 2 else T
     import_fractopo()
     if stub:
         install_stub()
@@ -35,7 +36,7 @@ def run_validation_case(arg):
 
     gdf = gpd.GeoDataFrame(geometry=[wkt.loads(w) for w in wkts])
     try:
-        return canon_val(Validation(gdf, area_for(gdf), "s", True, SNAP_THRESHOLD=T).run_validation())
+        return canon_val(Validation(gdf, area_for(gdf), "s", True, SNAP_THRESHOLD=t_).run_validation())
     except Exception as e:
         return f"{type(e).__name__}: {str(e)[:120]}"
 
@@ -70,25 +71,31 @@ def run_extraction_case(arg):
         return f"{type(e).__name__}: {str(e)[:160]}"
 
 
-def near_threshold_frames(rng, n):
-    """pairs of traces whose RELATION is inside a tested distance while their bounding boxes do not meet unextended"""
+def near_threshold_frames(rng, n, tier="quick"):
+    """pairs of traces whose RELATION is inside a tested distance while their bounding boxes do not meet unextended; for the
+    default threshold and for user-supplied thresholds above / below it. Returns [(geoms, threshold)]"""
     from shapely import affinity
     from shapely.geometry import LineString
 
     L = LineString
-    frames = []
-    t, m, k = T, 1.1, 5.0
-    seps = [0.5 * t, 0.95 * t * m, 1.05 * t, 0.98 * t * m * k, 0.955 * t * m * k, 0.93 * t * m * k, 1.3 * t * m * k]
-    for d in seps:
-        base = [
-            [L([(-5, 0), (5, 0)]), L([(-3, d), (7, d)])],            # long parallel neighbours (stacking window)
-            [L([(-5, 0), (5, 0)]), L([(0, 3), (0, d)])],             # T: end near the interior (under/overlap window)
-            [L([(-5, 0), (5, 0)]), L([(5 + d, 0), (9, 0)])],         # collinear end to end (V-node window)
-            [L([(-5, 0), (5, 0)]), L([(5, d), (5, 4)])],             # end near an end, perpendicular
-        ]
-        for pair in base:
-            for ang in (0, 90, 45, 10):
-                frames.append([affinity.rotate(g, ang, origin=(0, 0)) for g in pair])
+    structured = []
+    m, k = 1.1, 5.0
+    for t in (T, 0.1, 0.001):
+        seps = [0.5 * t, 0.95 * t * m, 1.05 * t, 0.98 * t * m * k, 0.955 * t * m * k, 0.93 * t * m * k, 1.3 * t * m * k]
+        for d in seps:
+            base = [
+                [L([(-5, 0), (5, 0)]), L([(-3, d), (7, d)])],            # long parallel neighbours (stacking window)
+                [L([(-5, 0), (5, 0)]), L([(0, 3), (0, d)])],             # T: end near the interior (under/overlap window)
+                [L([(-5, 0), (5, 0)]), L([(5 + d, 0), (9, 0)])],         # collinear end to end (V-node window)
+                [L([(-5, 0), (5, 0)]), L([(5, d), (5, 4)])],             # end near an end, perpendicular
+            ]
+            for pair in base:
+                for ang in (0, 90, 45, 10):
+                    structured.append(([affinity.rotate(g, ang, origin=(0, 0)) for g in pair], t))
+    if tier == "quick":
+        # all axis-parallel frames (degenerate boxes: where a window margin matters) + a seeded third of the rest
+        structured = [f for i, f in enumerate(structured) if (i % 4) in (0, 1) or rng.random() < 0.34]
+    frames = list(structured)
     G = gadgets()
     names = ["valid_x", "valid_y", "vnode", "multijunction", "stacked", "underlap", "overlap", "multicross", "cuts_itself", "underlap_diag"]
     while len(frames) < n:
@@ -96,28 +103,29 @@ def near_threshold_frames(rng, n):
         for i, nm in enumerate(rng.sample(names, rng.randint(2, 4))):
             geoms += [place(g, 60.0 * i, 0.0) for g in G[nm]]
         rng.shuffle(geoms)
-        frames.append(geoms)
-    return frames[:n]
+        frames.append((geoms, T))
+    return frames
 
 
 def s16_validation(ctx):
-    res = StreamResult("S16-validation", rule="near-threshold pairs (separation inside / outside each tested distance: t, t*m, t*m*k) in axis-parallel, 90, 45, 10 degree "
+    res = StreamResult("S16-validation", rule="near-threshold pairs (separation inside / outside each tested distance: t, t*m, t*m*k; thresholds 0.01 default, 0.1 and 0.001 user-supplied) in axis-parallel, 90, 45, 10 degree "
                        "orientations incl. end-of-trace and collinear configurations with degenerate boxes, plus planted-defect frames: Validation verdicts with the "
                        "real index vs an index answering everything; non-trivial = frame with an error")
     rng = rng_for(ctx.seed, "S16v")
-    frames = near_threshold_frames(rng, budget(ctx.tier, 140, 600))
-    args = [([g.wkt for g in f], s) for f in frames for s in (False, True)]
+    frames = near_threshold_frames(rng, budget(ctx.tier, 260, 700), ctx.tier)
+    args = [([g.wkt for g in f], s, t_) for f, t_ in frames for s in (False, True)]
     with mp.get_context("fork").Pool(16, maxtasksperchild=8) as pool:
         outs = pool.map(run_validation_case, args, chunksize=2)
-    for i, f in enumerate(frames):
+    for i, (f, t_) in enumerate(frames):
         real, stub = outs[2 * i], outs[2 * i + 1]
         res.evaluations += 1
+        res.distribution[f"t={t_}"] = res.distribution.get(f"t={t_}", 0) + 1
         if not isinstance(real, str) and any(real):
             res.nontrivial += 1
         if real != stub:
-            res.disagreements.append(Disagreement("S16-validation", {"stream": "S16-validation", "wkt": [g.wkt for g in f]}, stub, real, True,
+            res.disagreements.append(Disagreement("S16-validation", {"stream": "S16-validation", "wkt": [g.wkt for g in f], "t": t_}, stub, real, True,
                                                   "validation verdicts differ between the spatial index and all-pairs candidates"))
-    res.samples = [{"wkt": [g.wkt for g in frames[0]]}]
+    res.samples = [{"wkt": [g.wkt for g in frames[0][0]], "t": frames[0][1]}]
     return res
 
 
@@ -155,7 +163,7 @@ STREAMS = [s16_validation, s16_extraction]
 def replay(ctx, stream, case):
     if stream == "S16-validation":
         with mp.get_context("fork").Pool(2, maxtasksperchild=1) as pool:
-            real, stub = pool.map(run_validation_case, [(case["wkt"], False), (case["wkt"], True)], chunksize=1)
+            real, stub = pool.map(run_validation_case, [(case["wkt"], False, case.get("t", T)), (case["wkt"], True, case.get("t", T))], chunksize=1)
         return None if real == stub else Disagreement(stream, case, stub, real, True, "verdicts differ")
     from harness.common import parse_lines
     from shapely.geometry import Polygon
